@@ -13,7 +13,10 @@ re-indexing with the three-way split on the running gate counter `j`.
 Four defects of the code at the pinned commit are repaired by `fixes/C07-{1,2,3,4}.patch`;
 `Variant` selects, per defect, the behaviour before (`false`) or after (`true`) the patch, so
 that the same definitions model both the code as found (`Variant.old`) and the repaired code
-(`Variant.fixed`, which is what the property theorems are about).
+(`Variant.rep cc`, which is what the property theorems are about).  A fifth flag `ccFix`
+(`fixes/C07-5.patch`) says whether the re-emitted gate keeps the classical condition (`extra`) of
+the routed gate; the harness reads it from the source, the theorems cover both values
+(`Variant.fixed = Variant.rep false`: the condition is dropped; `Variant.rep true`: it is kept).
 -/
 namespace QipVerif.Route
 
@@ -56,7 +59,7 @@ inductive Err
   | value
 deriving DecidableEq, Repr
 
-/-- Which of the three repairs are in place. -/
+/-- Which of the repairs are in place. -/
 structure Variant where
   /-- C07-1: `% N` on every re-indexed qubit of the backward path -/
   modFix : Bool
@@ -67,21 +70,29 @@ structure Variant where
   /-- C07-4: a `Measurement` is appended as it is (before: wrapped into a `Gate` whose *name*
   is the measurement object and which has no targets) -/
   measFix : Bool
+  /-- C07-5: the re-emitted gate keeps the classical condition of the routed gate
+  (`**_condition(gate)`); before, every routed gate came out unconditional -/
+  ccFix : Bool
 deriving DecidableEq, Repr
 
-def Variant.old : Variant := ⟨false, false, false, false⟩
-def Variant.fixed : Variant := ⟨true, true, true, true⟩
+def Variant.old : Variant := ⟨false, false, false, false, false⟩
+/-- the code with `fixes/C07-{1,2,3,4}.patch`; `cc` = whether `fixes/C07-5.patch` is in place too -/
+def Variant.rep (cc : Bool) : Variant := ⟨true, true, true, true, cc⟩
+def Variant.fixed : Variant := Variant.rep false
+
+/-- the label of the classical condition handed to the re-emitted gate (`0` = none) -/
+def Variant.cond (v : Variant) (g : Gate) : Nat := if v.ccFix then g.extra else 0
 
 /-- `add_gate("SWAP", targets=[i, j])` -/
 def swapG (i j : Nat) : Gate := ⟨.SWAP, [], [i, j], 0, 0⟩
 
-/-- `add_gate(name, targets=[..], controls=[..])` on the neighbours `lo < hi`; `ctlHi` says
-whether the control is the upper one. -/
-def mkCtl (nm : GName) (ctlHi : Bool) (lo hi : Nat) : Gate :=
-  if ctlHi then ⟨nm, [hi], [lo], 0, 0⟩ else ⟨nm, [lo], [hi], 0, 0⟩
+/-- `add_gate(name, targets=[..], controls=[..], <condition x>)` on the neighbours `lo < hi`;
+`ctlHi` says whether the control is the upper one. -/
+def mkCtl (nm : GName) (x : Nat) (ctlHi : Bool) (lo hi : Nat) : Gate :=
+  if ctlHi then ⟨nm, [hi], [lo], 0, x⟩ else ⟨nm, [lo], [hi], 0, x⟩
 
-/-- `add_gate(name, [lo, hi], arg_value=..)` -/
-def mkSwp (nm : GName) (arg : Nat) (lo hi : Nat) : Gate := ⟨nm, [], [lo, hi], arg, 0⟩
+/-- `add_gate(name, [lo, hi], arg_value=.., <condition x>)` -/
+def mkSwp (nm : GName) (arg x : Nat) (lo hi : Nat) : Gate := ⟨nm, [], [lo, hi], arg, x⟩
 
 /-- The `while i < end` loop shared by all paths.  `mkA` builds the routed gate in the
 "distance odd" case, `mkB` in the "distance even" case (arguments: lower, upper qubit).
@@ -109,21 +120,22 @@ def tempCirc (mkA mkB : Nat → Nat → Gate) (L : Nat) : List Gate := loop mkA 
 def lowIdx (v : Variant) (N e q : Nat) : Nat := if v.modFix then (e + q) % N else e + q
 
 /-- Re-indexing of one gate of the temporary circuit in the CNOT/CSIGN branch; `j` is the
-running counter (`j < N - end - 2` ⇔ `j + e + 2 < N` over the integers). -/
+running counter (`j < N - end - 2` ⇔ `j + e + 2 < N` over the integers).  After C07-5 the copy
+carries the condition of the temporary gate (the helper SWAPs have none). -/
 def reidxCtl1 (v : Variant) (N e j : Nat) (g : Gate) : Gate :=
   if g.name.isCtl then
     match g.targets, g.controls with
     | t :: _, c :: _ =>
-      if j + e + 2 < N then ⟨g.name, [lowIdx v N e c], [lowIdx v N e t], 0, 0⟩
-      else if j + e + 2 = N then ⟨g.name, [(e + c) % N], [lowIdx v N e t], 0, 0⟩
-      else ⟨g.name, [(e + c) % N], [(e + t) % N], 0, 0⟩
+      if j + e + 2 < N then ⟨g.name, [lowIdx v N e c], [lowIdx v N e t], 0, v.cond g⟩
+      else if j + e + 2 = N then ⟨g.name, [(e + c) % N], [lowIdx v N e t], 0, v.cond g⟩
+      else ⟨g.name, [(e + c) % N], [(e + t) % N], 0, v.cond g⟩
     | _, _ => g
   else
     match g.targets with
     | t0 :: t1 :: _ =>
-      if j + e + 2 < N then ⟨g.name, [], [lowIdx v N e t0, lowIdx v N e t1], 0, 0⟩
-      else if j + e + 2 = N then ⟨g.name, [], [lowIdx v N e t0, (e + t1) % N], 0, 0⟩
-      else ⟨g.name, [], [(e + t0) % N, (e + t1) % N], 0, 0⟩
+      if j + e + 2 < N then ⟨g.name, [], [lowIdx v N e t0, lowIdx v N e t1], 0, v.cond g⟩
+      else if j + e + 2 = N then ⟨g.name, [], [lowIdx v N e t0, (e + t1) % N], 0, v.cond g⟩
+      else ⟨g.name, [], [(e + t0) % N, (e + t1) % N], 0, v.cond g⟩
     | _ => g
 
 /-- Re-indexing of one gate of the temporary circuit in the exchange-gate branch.  The
@@ -131,9 +143,9 @@ temporary gate's `arg` is what `arg_value=gate.arg_value` copies after C07-3 (`0
 def reidxSwp1 (v : Variant) (N e j : Nat) (g : Gate) : Gate :=
   match g.targets with
   | t0 :: t1 :: _ =>
-    if j + e + 2 < N then ⟨g.name, [], [lowIdx v N e t0, lowIdx v N e t1], g.arg, 0⟩
-    else if j + e + 2 = N then ⟨g.name, [], [lowIdx v N e t0, (e + t1) % N], g.arg, 0⟩
-    else ⟨g.name, [], [(e + t0) % N, (e + t1) % N], g.arg, 0⟩
+    if j + e + 2 < N then ⟨g.name, [], [lowIdx v N e t0, lowIdx v N e t1], g.arg, v.cond g⟩
+    else if j + e + 2 = N then ⟨g.name, [], [lowIdx v N e t0, (e + t1) % N], g.arg, v.cond g⟩
+    else ⟨g.name, [], [(e + t0) % N, (e + t1) % N], g.arg, v.cond g⟩
   | _ => g
 
 /-- `j = 0; for gate in temp.gates: …; j = j + 1` -/
@@ -146,15 +158,16 @@ def routeCtl (v : Variant) (N : Nat) (setup : Setup) (g : Gate) (c t : Nat) : Ex
   let s := min t c
   let e := max t c
   let ce := e == c
+  let x := v.cond g
   if setup = .linear ∨ (setup = .circular ∧ e - s ≤ N / 2) then
-    .ok (fwd (mkCtl g.name ce) (mkCtl g.name ce) s e)
+    .ok (fwd (mkCtl g.name x ce) (mkCtl g.name x ce) s e)
   else if e - s + 1 < N then
     .ok (reidxFrom (reidxCtl1 v N e) 0
-      (tempCirc (mkCtl g.name (if v.roleFix then !ce else ce)) (mkCtl g.name (!ce)) (N + s - e)))
+      (tempCirc (mkCtl g.name x (if v.roleFix then !ce else ce)) (mkCtl g.name x (!ce)) (N + s - e)))
   else if e - s + 1 = N then
     -- `add_gate(gate.name, gate.targets, gate.controls)` builds a new CNOT/CSIGN object from the
     -- full lists; its constructor insists on one control and one target
-    if g.controls.length + g.targets.length = 2 then .ok [⟨g.name, g.controls, g.targets, 0, 0⟩]
+    if g.controls.length + g.targets.length = 2 then .ok [⟨g.name, g.controls, g.targets, 0, v.cond g⟩]
     else .error .value
   else .ok []
 
@@ -163,10 +176,11 @@ def routeSwp (v : Variant) (N : Nat) (setup : Setup) (g : Gate) (t0 t1 : Nat) : 
   let s := min t0 t1
   let e := max t0 t1
   let a := if v.argFix then g.arg else 0
+  let x := v.cond g
   if setup = .linear ∨ (setup = .circular ∧ e - s ≤ N / 2) then
-    fwd (mkSwp g.name a) (mkSwp g.name a) s e
+    fwd (mkSwp g.name a x) (mkSwp g.name a x) s e
   else
-    reidxFrom (reidxSwp1 v N e) 0 (tempCirc (mkSwp g.name a) (mkSwp g.name a) (N + s - e))
+    reidxFrom (reidxSwp1 v N e) 0 (tempCirc (mkSwp g.name a x) (mkSwp g.name a x) (N + s - e))
 
 def isMeas (g : Gate) : Bool := match g.name with | .meas _ => true | _ => false
 
@@ -198,13 +212,13 @@ def adjGateV (v : Variant) (g : Gate) : Except Err (List Gate) :=
     match g.targets, g.controls with
     | t :: _, c :: _ =>
       let ce := max t c == c
-      .ok (fwd (mkCtl g.name ce) (mkCtl g.name ce) (min t c) (max t c))
+      .ok (fwd (mkCtl g.name (v.cond g) ce) (mkCtl g.name (v.cond g) ce) (min t c) (max t c))
     | _, _ => .error .shape
   else if g.name.isSwp then
     match g.targets with
     | t0 :: t1 :: _ =>
       let a := if v.argFix then g.arg else 0
-      .ok (fwd (mkSwp g.name a) (mkSwp g.name a) (min t0 t1) (max t0 t1))
+      .ok (fwd (mkSwp g.name a (v.cond g)) (mkSwp g.name a (v.cond g)) (min t0 t1) (max t0 t1))
     | _ => .error .shape
   else .error .notImplemented
 
@@ -222,7 +236,8 @@ def adjLoopV (v : Variant) : List Gate → Except Err (List Gate)
 def adjacentGatesV (v : Variant) (gs : List Gate) : Except Err (List Gate) :=
   if gs.any isMeas then .error .notImplemented else adjLoopV v gs
 
-/-! The repaired code. -/
+/-! The repaired code (`fixes/C07-1..4`; the classical condition of a routed gate is dropped —
+`routeGateV (Variant.rep true)` etc. is the code with `fixes/C07-5.patch` as well). -/
 def routeGate := routeGateV Variant.fixed
 def toChain := toChainV Variant.fixed
 def adjacentGates := adjacentGatesV Variant.fixed
